@@ -62,6 +62,10 @@ func newVC(prog *Prog, fn *ssa.Function, fc *FuncContract, reg *KeyRegistry, dis
 	if fc != nil && (fc.Flags["safe"] || fc.Flags["nopanic"]) {
 		vc.safe = true
 	}
+	if fc != nil && fc.Flags["locksafe"] {
+		vc.safe = true
+		vc.locksafe = true
+	}
 	if fc != nil && fc.Flags["nooverflow"] {
 		vc.safe = true
 		vc.nooverflow = true
